@@ -33,6 +33,20 @@ func init() {
 	concreteIntrinsics["net.ParseIP"] = func(m *Machine, th *Thread, fn *ssa.Function, a []Value, site ssa.Instruction) Value {
 		return m.constBytes([]byte(net.ParseIP(m.strArg(a[0]))))
 	}
+	// net.ParseCIDR of a concrete, valid text: native, for the same reason
+	concreteIntrinsics["net.ParseCIDR"] = func(m *Machine, th *Thread, fn *ssa.Function, a []Value, site ssa.Instruction) Value {
+		ip, n, err := net.ParseCIDR(m.strArg(a[0]))
+		if err != nil {
+			panic(m.unsupported("native net.ParseCIDR of an invalid text %q", m.strArg(a[0])))
+		}
+		res := fn.Signature.Results()
+		netT := res.At(1).Type().(*types.Pointer).Elem()
+		sv := m.zero(netT).(*StructV)
+		sv.F[0] = m.constBytes([]byte(n.IP))
+		sv.F[1] = m.constBytes([]byte(n.Mask))
+		obj := m.newObj(netT, sv, "net.ParseCIDR")
+		return TupleV{m.constBytes([]byte(ip)), &Ptr{Obj: obj}, nilIface}
+	}
 	// verifParseCIDR(s string) (ip, mask []byte, ok bool): the masked network address and mask as net.ParseCIDR yields them
 	intrinsics["verifParseCIDR"] = func(m *Machine, th *Thread, fn *ssa.Function, a []Value, site ssa.Instruction) Value {
 		_, n, err := net.ParseCIDR(m.strArg(a[0]))
